@@ -1,6 +1,7 @@
 package main
 
 import (
+	"strings"
 	"bufio"
 	"reflect"
 	"encoding/json"
@@ -204,6 +205,10 @@ func runOpShared(name string, attrs []Attr, inputs []*TJ, outNames []string, sha
 			res = &Result{Status: "ok"}
 			for k, o := range outs {
 				res.Outs = append(res.Outs, toTJ(o))
+				if lay := oddLayout(o); lay != "" && res.Layout == "" {
+					res.Layout = fmt.Sprintf("output %d: %s", k, lay)
+					res.Chain = followerProbe(o)
+				}
 				for i, in := range orig {
 					if in != nil && o != nil && sameObj(in, o) {
 						res.Alias = append(res.Alias, [2]int{k, i})
@@ -512,6 +517,142 @@ func copyTP(dst, src *onnx.TensorProto) {
 	dst.Dims, dst.DataType, dst.Name = src.Dims, src.DataType, src.Name
 	dst.FloatData, dst.Int32Data, dst.Int64Data = src.FloatData, src.Int32Data, src.Int64Data
 	dst.DoubleData, dst.Uint64Data, dst.StringData, dst.RawData = src.DoubleData, src.Uint64Data, src.StringData, src.RawData
+}
+
+// oddLayout says in what way a result is NOT the plain tensor every operator of the pinned tree returns: a
+// view into other memory, a pending (lazy) transpose, a backing array that is longer or shorter than the shape.
+func oddLayout(t tensor.Tensor) (what string) {
+	d, ok := t.(*tensor.Dense)
+	if !ok || d == nil {
+		return ""
+	}
+	defer func() {
+		if recover() != nil {
+			what = ""
+		}
+	}()
+	var w []string
+	if d.IsMaterializable() {
+		w = append(w, "a view (materializable)")
+	}
+	if d.RequiresIterator() {
+		w = append(w, "not contiguous (requires an iterator)")
+	}
+	// a lazily pending transpose (gorgonia keeps the previous access pattern in the unexported field `old`)
+	if f := reflect.ValueOf(d).Elem().FieldByName("old"); f.IsValid() && f.Kind() == reflect.Ptr && !f.IsNil() {
+		w = append(w, "a pending (lazy) transpose")
+	}
+	if !d.IsScalar() {
+		if n := reflect.ValueOf(d.Data()); n.Kind() == reflect.Slice && n.Len() != d.Shape().TotalSize() {
+			w = append(w, fmt.Sprintf("Data() holds %d elements for shape %v", n.Len(), d.Shape()))
+		}
+	}
+	return strings.Join(w, ", ")
+}
+
+// followerProbe hands such a result - the very object, as Run does - to operators that typically come next in
+// a model and compares each answer with the answer for an equal, freshly built contiguous tensor. What is
+// returned names the followers that disagree (a two-node model on which Run computes something else than the
+// dataflow value).
+func followerProbe(o tensor.Tensor) []string {
+	ref := toTJ(o)
+	if ref == nil || strings.HasPrefix(ref.Dt, "bad:") || nelem(ref.Shape) > 4096 {
+		return nil
+	}
+	r := len(ref.Shape)
+	last := 1
+	if r > 0 {
+		last = ref.Shape[r-1]
+	}
+	isFloat := ref.Dt == "f32" || ref.Dt == "f64"
+	type fol struct {
+		op    string
+		attrs []Attr
+		rest  []*TJ
+	}
+	var fs []fol
+	if r >= 2 {
+		perm := make([]int64, r)
+		for i := range perm {
+			perm[i] = int64(r - 1 - i)
+		}
+		fs = append(fs, fol{"Transpose", []Attr{{Name: "perm", Type: "ints", Ints: perm}}, nil})
+	}
+	fs = append(fs, fol{"Reshape", nil, []*TJ{idxT("i64", []int{1}, []int{-1})}})
+	fs = append(fs, fol{"Cast", []Attr{{Name: "to", Type: "i", I: 11}}, nil})
+	if r >= 1 {
+		fs = append(fs, fol{"Concat", []Attr{{Name: "axis", Type: "i", I: 0}}, []*TJ{ref}})
+		fs = append(fs, fol{"Squeeze", nil, nil}, fol{"Flatten", []Attr{{Name: "axis", Type: "i", I: 1}}, nil})
+	}
+	if isFloat || ref.Dt == "i32" || ref.Dt == "i64" {
+		fs = append(fs, fol{"Add", nil, []*TJ{seqT(ref.Dt, []int{last}, func(i int) float64 { return float64(i + 1) })}})
+		// a partner of the same rank that stretches every unit axis of the result (the result is not rank-padded)
+		if r >= 2 {
+			ps := append([]int{}, ref.Shape...)
+			stretch := false
+			for i := range ps {
+				if ps[i] == 1 {
+					ps[i] = 3
+					stretch = true
+				}
+			}
+			if stretch && nelem(ps) <= 4096 {
+				fs = append(fs, fol{"Mul", nil, []*TJ{seqT(ref.Dt, ps, func(i int) float64 { return float64(i%5 + 1) })}})
+				fs = append(fs, fol{"Add", nil, []*TJ{seqT(ref.Dt, ps[1:], func(i int) float64 { return float64(i%7 - 3) })}})
+			}
+		}
+		if r >= 1 {
+			fs = append(fs, fol{"ReduceMax", []Attr{{Name: "axes", Type: "ints", Ints: []int64{-1}}}, nil})
+		}
+	}
+	if isFloat && r >= 2 {
+		w := seqT(ref.Dt, []int{last, 2}, func(i int) float64 { return float64(i%3 - 1) })
+		fs = append(fs, fol{"MatMul", nil, []*TJ{w}})
+		if r == 2 {
+			fs = append(fs, fol{"Gemm", nil, []*TJ{w}})
+		}
+		fs = append(fs, fol{"Relu", nil, nil})
+	}
+	if ref.Dt == "i64" && r == 1 && nelem(ref.Shape) <= 4 {
+		ok := true
+		for _, v := range ref.Data {
+			if toF(v) < 1 || toF(v) > 6 {
+				ok = false
+			}
+		}
+		if ok {
+			fs = append(fs, fol{"ConstantOfShape", nil, nil})
+		}
+	}
+	var bad []string
+	for _, f := range fs {
+		run := func(first tensor.Tensor) (out string) {
+			defer func() {
+				if p := recover(); p != nil {
+					out = fmt.Sprint("panic: ", p)
+				}
+			}()
+			ts := []tensor.Tensor{first}
+			for _, t := range f.rest {
+				ts = append(ts, mkTensor(t))
+			}
+			res, err := applyOpTensors(f.op, f.attrs, ts)
+			if err != nil {
+				return "error: " + err.Error()
+			}
+			b, _ := json.Marshal(toTJ(res[0]))
+			return string(b)
+		}
+		want := run(mkTensor(ref))
+		got := run(o)
+		if want != got {
+			if len(got) > 120 {
+				got = got[:120]
+			}
+			bad = append(bad, fmt.Sprintf("%s: %s", f.op, got))
+		}
+	}
+	return bad
 }
 
 func sameObj(a, b tensor.Tensor) bool {
